@@ -222,15 +222,16 @@ Theorem tconforms_total : forall m S T,
 Proof. exact type_conforms_total. Qed.
 Print Assumptions tconforms_total.
 
-(* ... and with any larger fuel they give the same answer *)
+(* ... and with any larger fuel they give the same answer.  This one holds in
+   every mode: a None of set_conforms Legacy is the panic, not the fuel *)
 Theorem conforms_fuel_independent : forall m k S T,
-  m <> Legacy -> (fuel_for S T <= k)%nat -> sc m k S T = set_conforms m S T.
-Proof. exact sc_fuel_independent. Qed.
+  (fuel_for S T <= k)%nat -> sc m k S T = set_conforms m S T.
+Proof. exact sc_fuel_independent_all. Qed.
 Print Assumptions conforms_fuel_independent.
 
 Theorem type_conforms_fuel_independent : forall m k S T,
-  m <> Legacy -> (fuel_for S T <= k)%nat -> tc m k S T = type_conforms m S T.
-Proof. exact tc_fuel_independent. Qed.
+  (fuel_for S T <= k)%nat -> tc m k S T = type_conforms m S T.
+Proof. exact tc_fuel_independent_all. Qed.
 Print Assumptions type_conforms_fuel_independent.
 
 (* the bounds always answer (for every sort function, also one that loses elements) *)
